@@ -1,36 +1,346 @@
 import H5V.Model.XmlTok
 import H5V.Gen.XmlTokSets
+import H5V.Lemmas.XmlTokRuns
+import H5V.Lemmas.XmlTokBom
 /-!
-C15 — XML5 parse result is independent of chunking and diagnostic options.
-(work in progress: side conditions on the fast-path sets first)
+C15 — XML5 parse result is independent of chunking and diagnostic options (tokenizer level).
+
+Proved here, for the model `H5V.Model.XmlTok` of xml5ever's tokenizer (all strings, all chunkings):
+* `xmlTokSets_match`, `C15_sets_cover` — the `small_char_set!`s of the source (regenerated every run)
+  are the model's, and each contains `\r`, `\0` and every character its state treats specially
+  (the side condition DESIGN 1.3 item 12 violated).
+* `C15_fast_eq_slow` — for a character outside the set, the fast path (raw `NotFromSet` run) and the
+  slow path (`get_char`, used with `exact_errors`) do the same: NUL→U+FFFD and CR→LF cannot be skipped.
+* `C15_step_mono`, `C15_step_resume`, `C15_step_good`, `C15_step_sim` — one step of the tokenizer loop
+  is monotone in the unread input, resumable after "need more input", preserves the look-ahead
+  invariant, and does not depend on a dead `current_char`.
+* `C15_chunking` — **chunk independence of `feed`**: feeding any list of chunks (empty and
+  one-character chunks included; U+FEFF dropped by the prologue only as the first character of the
+  stream) leaves the tokenizer in the machine a one-piece feed of the concatenation reaches, up to a
+  dead `current_char`; in particular the same tokens have been delivered (`C15_chunking_tokens`).
+* `C15_finish_sim` — `end()` on machines equal up to a dead `current_char` delivers the same tokens.
+* `C15_bom_once` — `discard_bom` is consumed by the first character ever fed and never set again.
+
+**Partial** (`C15_…` statements above are complete for what they say; what is *not* proved):
+independence of `exact_errors` at run level (only the step-level core `C15_fast_eq_slow`), the
+"no raw CR / NUL reaches the sink" clause as a global invariant, the fuel bound of `run`, and
+everything about the tree builder (`xmltok tree` family: code vs code). The oracles of
+tools/props/C15.py check those on the real code.
 -/
 namespace H5V.Props.C15
 open H5V.Model.XmlTok
 
-/-- the model's per-state sets are the `small_char_set!`s of the source (regenerated each run) -/
+/-! ### the fast-path sets -/
+
 def popStates : List (String × State) :=
   [("Data", .data), ("TagAttrValue(DoubleQuoted)", .tagAttrValue .doubleQuoted),
    ("TagAttrValue(SingleQuoted)", .tagAttrValue .singleQuoted), ("TagAttrValue(Unquoted)", .tagAttrValue .unquoted)]
 
+/-- the model's per-state sets are the `small_char_set!`s of the source (regenerated each run) -/
 theorem xmlTokSets_match :
     H5V.Gen.XmlTokSets.sets = popStates.map (fun p => (p.1, (setOf p.2).map Char.toNat)) := by decide
 
-/-- the characters a `pop_except_from` state's table distinguishes (every literal of its `FromSet` arms) -/
-def special : State → List Char
-  | .data => ['&', '<']
-  | .tagAttrValue .doubleQuoted => ['"', '&']
-  | .tagAttrValue .singleQuoted => ['\'', '&']
-  | .tagAttrValue .unquoted => ['\t', '\n', ' ', '&', '>']
-  | _ => []
-
-/-- **Side condition of the fast path** (what DESIGN 1.3 item 12 violated): in every state read with
-`pop_except_from`, the set contains `\r` and `\0` (the characters `get_preprocessed_char` rewrites) and
-every character the state's table treats specially — so a raw `NotFromSet` run never contains a
-character that the slow path would have handled differently. -/
+/-- **Side condition of the fast path**: in every state read with `pop_except_from`, the set
+contains `\r` and `\0` (the characters `get_preprocessed_char` rewrites) and every character the
+state's table treats specially. -/
 theorem C15_sets_cover (s : State) (h : readKind s = .popExcept) :
-    '\r' ∈ setOf s ∧ '\x00' ∈ setOf s ∧ ∀ c ∈ special s, c ∈ setOf s := by
-  cases s <;> simp [readKind] at h
-  · decide
-  · rename_i k; cases k <;> decide
+    '\r' ∈ setOf s ∧ '\x00' ∈ setOf s ∧ ∀ c ∈ special s, c ∈ setOf s := setOf_cover s h
+
+/-- **fast path = slow path** for every character outside the state's set: `get_preprocessed_char`
+is the identity on it (with `exact_errors` off) and the table treats `FromSet c` like the run `[c]` -/
+theorem C15_fast_eq_slow (o : Opts) (m : Mach) (c : Char) (hk : readKind m.state = .popExcept)
+    (hc : c ∉ setOf m.state) (hex : o.exactErrors = false) :
+    foldChar o m c = (c, m.setCurrentChar c) ∧ transSet m (.fromSet c) = transSet m (.notFromSet [c]) := by
+  have hcov := setOf_cover m.state hk
+  exact ⟨foldChar_plain o m c hex (fun h => hc (h ▸ hcov.1)) (fun h => hc (h ▸ hcov.2.1)),
+    transSet_dead m c hk hc⟩
+
+/-! ### one step -/
+
+theorem C15_step_mono (o : Opts) (m : Mach) (inp e : Str) (hg : Good m) (hat : m.atEof = false)
+    (h : (step o m inp).isSuspend = false) : step o m (inp ++ e) = (step o m inp).ext e :=
+  step_mono o m inp e (fun _ => hg.eatOk) hat h
+
+theorem C15_step_resume (o : Opts) (m m' : Mach) (inp inp' e : Str) (hg : Good m) (hat : m.atEof = false)
+    (h : step o m inp = .suspend m' inp') :
+    inp' = [] ∧ RSim (step o m (inp ++ e)) (step o m' e) ∧ Good m' ∧ m'.atEof = false :=
+  step_resume o m m' inp inp' e hg hat h
+
+theorem C15_step_good (o : Opts) (m : Mach) (inp : Str) (m' : Mach) (hg : Good m) (hat : m.atEof = false)
+    (h : (step o m inp).mach? = some m') : Good m' ∧ m'.atEof = false := step_good o m inp m' hg hat h
+
+theorem C15_step_sim (o : Opts) (m1 m2 : Mach) (inp : Str) (h : Sim m1 m2) :
+    RSim (step o m1 inp) (step o m2 inp) := step_sim o m1 m2 inp h
+
+/-! ### `run` (with fuel) and the relational big-step runs -/
+
+theorem run_done_runsTo (o : Opts) (fuel : Nat) (m : Mach) (inp : Str) (m' : Mach)
+    (h : run o fuel m inp = .done m' []) : RunsTo o m inp m' := by
+  induction fuel generalizing m inp with
+  | zero => simp [run] at h
+  | succ f ih =>
+    simp only [run] at h
+    cases hs : step o m inp with
+    | cont m1 i1 => rw [hs] at h; exact RunsTo.cont hs (ih m1 i1 h)
+    | suspend m1 i1 =>
+      rw [hs] at h
+      simp only [RunRes.done.injEq] at h
+      obtain ⟨h1, h2⟩ := h; subst h1 h2
+      exact RunsTo.susp hs
+    | panic e => rw [hs] at h; simp at h
+
+theorem runsTo_run_done (o : Opts) {m : Mach} {inp : Str} {m' : Mach} (h : RunsTo o m inp m') :
+    ∃ fuel, ∀ k, run o (fuel + k) m inp = .done m' [] := by
+  induction h with
+  | @susp m0 i0 m0' hs => exact ⟨1, fun k => by rw [Nat.add_comm]; simp [run, hs]⟩
+  | @cont m0 i0 m1 i1 m0' hs _ ih =>
+    obtain ⟨f, hf⟩ := ih
+    refine ⟨f + 1, fun k => ?_⟩
+    have : f + 1 + k = (f + k) + 1 := by omega
+    rw [this]; simp only [run, hs]; exact hf k
+
+/-! ### `feed`: the BOM prologue, then `run` -/
+
+/-- what `XmlTokenizer::feed` does with one chunk (the queue is empty between feeds, theorem
+`C15_step_resume`): nothing on an empty chunk, else the BOM prologue and a run to suspension -/
+inductive FeedSession (o : Opts) : Mach → List Str → Mach → Prop
+  | nil {m} : FeedSession o m [] m
+  | skip {m cs mf} : FeedSession o m cs mf → FeedSession o m ([] :: cs) mf
+  | cons {m c m1 cs mf} : c ≠ [] → RunsTo o (feedBom m c).1 (feedBom m c).2 m1 →
+      FeedSession o m1 cs mf → FeedSession o m (c :: cs) mf
+
+theorem feedBom_append (m : Mach) (c e : Str) (hc : c ≠ []) :
+    feedBom m (c ++ e) = ((feedBom m c).1, (feedBom m c).2 ++ e) := by
+  cases c with
+  | nil => exact absurd rfl hc
+  | cons x xs =>
+    simp only [feedBom, List.cons_append]
+    split
+    · split <;> simp
+    · simp
+
+theorem feedBom_flag (m : Mach) (c : Str) (hc : c ≠ []) : (feedBom m c).1.discardBom = false := by
+  cases c with
+  | nil => exact absurd rfl hc
+  | cons x xs =>
+    simp only [feedBom]
+    split
+    · simp
+    · rename_i h; simpa using h
+
+theorem feedBom_off (m : Mach) (c : Str) (h : m.discardBom = false) : feedBom m c = (m, c) := by
+  cases c with
+  | nil => rfl
+  | cons x xs => simp [feedBom, h]
+
+theorem feedBom_good (m : Mach) (c : Str) (hg : Good m) (hat : m.atEof = false) :
+    Good (feedBom m c).1 ∧ (feedBom m c).1.atEof = false := by
+  cases c with
+  | nil => exact ⟨hg, hat⟩
+  | cons x xs =>
+    simp only [feedBom]
+    split
+    · refine ⟨?_, by simpa using hat⟩
+      rcases hg with h | ⟨h1, h2, h3⟩
+      · exact Or.inl (by simpa using h)
+      · exact Or.inr ⟨by simpa using h1, by simpa using h2, by simpa using h3⟩
+    · exact ⟨hg, hat⟩
+
+/-- **C15, chunk independence of `feed`.**  Feed the chunks `cs` one after the other (any partition:
+empty chunks, single characters, …).  Unless nothing at all was fed, the machine reached is — up to a
+dead `current_char` — the one reached by feeding the concatenation in one piece; the U+FEFF prologue
+acts on the first character of the *stream*, not of each chunk. -/
+theorem C15_chunking (o : Opts) {m : Mach} {cs : List Str} {mf : Mach}
+    (hs : FeedSession o m cs mf) : Good m → m.atEof = false →
+    (cs.flatten = [] ∧ mf = m) ∨
+    ∃ mf', RunsTo o (feedBom m cs.flatten).1 (feedBom m cs.flatten).2 mf' ∧ Sim mf' mf := by
+  induction hs with
+  | nil => intro _ _; exact Or.inl ⟨rfl, rfl⟩
+  | skip _ ih => intro hg hat; simpa using ih hg hat
+  | @cons m0 c m1 cs0 mf0 hc hr _ ih =>
+    intro hg hat
+    right
+    obtain ⟨hgb, hatb⟩ := feedBom_good m0 c hg hat
+    obtain ⟨hg1, hat1⟩ := runsTo_good o hr hgb hatb
+    have hdb : m1.discardBom = false := by
+      rw [runsTo_discardBom o hr]; exact feedBom_flag m0 c hc
+    simp only [List.flatten_cons]
+    rw [feedBom_append m0 c _ hc]
+    rcases ih hg1 hat1 with ⟨hnil, hmf⟩ | ⟨mf', hr', hsim⟩
+    · rw [hnil, hmf]
+      exact ⟨m1, by simpa using hr, Sim.refl _⟩
+    · rw [feedBom_off m1 _ hdb] at hr'
+      obtain ⟨m2', hr2, hsim2⟩ := runsTo_chunk o hr hgb hatb cs0.flatten mf' hr'
+      exact ⟨m2', hr2, Sim.trans hsim2 hsim⟩
+
+/-- the same tokens (and parse errors) have been delivered to the sink -/
+theorem C15_chunking_tokens (o : Opts) {m : Mach} {cs : List Str} {mf : Mach}
+    (hs : FeedSession o m cs mf) (hg : Good m) (hat : m.atEof = false) (hne : cs.flatten ≠ []) :
+    ∃ mf', RunsTo o (feedBom m cs.flatten).1 (feedBom m cs.flatten).2 mf' ∧ mf'.out = mf.out := by
+  rcases C15_chunking o hs hg hat with ⟨h, _⟩ | ⟨mf', hr, hsim⟩
+  · exact absurd h hne
+  · exact ⟨mf', hr, hsim.out⟩
+
+/-- the functional `feed` of the driver is a `FeedSession` step -/
+theorem feed_done (o : Opts) (m : Mach) (c : Str) (m' : Mach) (h : feed o m [] c = .done m' []) :
+    (c = [] ∧ m' = m) ∨ (c ≠ [] ∧ RunsTo o (feedBom m c).1 (feedBom m c).2 m') := by
+  unfold feed at h
+  simp only [List.nil_append] at h
+  cases c with
+  | nil => simp at h; exact Or.inl ⟨rfl, h.symm⟩
+  | cons x xs =>
+    right
+    simp only [List.isEmpty_cons, Bool.false_eq_true, ↓reduceIte] at h
+    exact ⟨by simp, run_done_runsTo o _ _ _ _ h⟩
+
+/-- feed all chunks with the driver's `feed`; `none` if a feed panics, runs out of fuel or leaves
+input in the queue -/
+def feedAll (o : Opts) (m : Mach) : List Str → Option Mach
+  | [] => some m
+  | c :: cs =>
+    match feed o m [] c with
+    | .done m' [] => feedAll o m' cs
+    | _ => none
+
+theorem feedAll_session (o : Opts) (m : Mach) (cs : List Str) (mf : Mach)
+    (h : feedAll o m cs = some mf) : FeedSession o m cs mf := by
+  induction cs generalizing m with
+  | nil => simp only [feedAll, Option.some.injEq] at h; subst h; exact FeedSession.nil
+  | cons c cs ih =>
+    simp only [feedAll] at h
+    split at h
+    · rename_i m' hf
+      rcases feed_done o m c m' hf with ⟨hc, hm⟩ | ⟨hc, hr⟩
+      · subst hc hm; exact FeedSession.skip (ih _ h)
+      · exact FeedSession.cons hc hr (ih _ h)
+    · cases h
+
+/-- **C15 for the functions the correspondence check runs**: if the driver's `feed` succeeds on every
+chunk, then `run` on the concatenation (after the BOM prologue, with enough fuel) suspends in a machine
+that has delivered exactly the same tokens -/
+theorem C15_feedAll (o : Opts) (m : Mach) (cs : List Str) (mf : Mach) (hg : Good m) (hat : m.atEof = false)
+    (h : feedAll o m cs = some mf) (hne : cs.flatten ≠ []) :
+    ∃ fuel mf', run o fuel (feedBom m cs.flatten).1 (feedBom m cs.flatten).2 = .done mf' [] ∧
+      Sim mf' mf ∧ mf'.out = mf.out := by
+  rcases C15_chunking o (feedAll_session o m cs mf h) hg hat with ⟨h0, _⟩ | ⟨mf', hr, hsim⟩
+  · exact absurd h0 hne
+  · obtain ⟨f, hf⟩ := runsTo_run_done o hr
+    exact ⟨f, mf', by simpa using hf 0, hsim, hsim.out⟩
+
+/-- every machine the driver starts from satisfies the invariant -/
+theorem good_initial (st : State) (b : Bool) : Good { state := st, discardBom := b } := Or.inl rfl
+
+/-- **U+FEFF is dropped only at the start of the stream**: the first non-empty feed consumes the
+`discard_bom` flag and no step of the tokenizer loop sets it again -/
+theorem C15_bom_once (o : Opts) (m : Mach) (c : Str) (m1 : Mach) (hc : c ≠ [])
+    (hr : RunsTo o (feedBom m c).1 (feedBom m c).2 m1) :
+    m1.discardBom = false ∧ ∀ e, feedBom m1 e = (m1, e) := by
+  have : m1.discardBom = false := by rw [runsTo_discardBom o hr]; exact feedBom_flag m c hc
+  exact ⟨this, fun e => feedBom_off m1 e this⟩
+
+/-! ### `end()` does not look at a dead `current_char` -/
+
+theorem emit_setCC (m : Mach) (a : Char) (t : Token) : emit (m.setCurrentChar a) t = (emit m t).setCurrentChar a := by
+  cases m; rfl
+theorem reconsumeTo_setCC (s : State) (m : Mach) (a : Char) :
+    reconsumeTo s (m.setCurrentChar a) = (reconsumeTo s m).setCurrentChar a := by cases m; rfl
+theorem emitComment_setCC (m : Mach) (a : Char) :
+    emitComment (m.setCurrentChar a) = (emitComment m).setCurrentChar a := by cases m; rfl
+theorem emitDoctype_setCC (m : Mach) (a : Char) :
+    emitDoctype (m.setCurrentChar a) = (emitDoctype m).setCurrentChar a := by cases m; rfl
+theorem emitPi_setCC (m : Mach) (a : Char) : emitPi (m.setCurrentChar a) = (emitPi m).setCurrentChar a := by
+  cases m; rfl
+theorem badEof_setCC (o : Opts) (m : Mach) (a : Char) :
+    badEof o (m.setCurrentChar a) = (badEof o m).setCurrentChar a := by
+  unfold badEof; split <;> (cases m; rfl)
+theorem setTagKind_setCC (m : Mach) (a : Char) (k : TagKind) :
+    { m.setCurrentChar a with tagKind := k } = ({ m with tagKind := k } : Mach).setCurrentChar a := by
+  cases m; rfl
+theorem emitStartTag_setCC (s : State) (m : Mach) (a : Char) :
+    emitStartTag s (m.setCurrentChar a) = (emitStartTag s m).setCurrentChar a := by
+  unfold emitStartTag
+  simp only [to_setCC, setTagKind_setCC, emitCurrentTag_setCC]
+
+theorem transEof_setCC (o : Opts) (m : Mach) (a : Char) :
+    transEof o (m.setCurrentChar a) = ((transEof o m).1.setCurrentChar a, (transEof o m).2) := by
+  unfold transEof
+  have e : (m.setCurrentChar a).state = m.state := rfl
+  simp only [e]
+  split <;>
+    simp only [emit_setCC, reconsumeTo_setCC, emitComment_setCC, emitDoctype_setCC, emitPi_setCC, badEof_setCC,
+      emitStartTag_setCC, emitTag_setCC, to_setCC, emitChar_setCC]
+
+theorem eofLoop_setCC (o : Opts) (f : Nat) (m : Mach) (a : Char) :
+    eofLoop o f (m.setCurrentChar a) = (eofLoop o f m).map (fun x => x.setCurrentChar a) := by
+  induction f generalizing m with
+  | zero => rfl
+  | succ f ih =>
+    simp only [eofLoop, transEof_setCC]
+    cases h : transEof o m with
+    | mk m1 sg =>
+      cases sg with
+      | cont => simp only; exact ih m1
+      | done => rfl
+      | panic e => rfl
+
+/-- `run` with the same fuel from machines equal up to a dead `current_char` -/
+def RunSim : RunRes → RunRes → Prop
+  | .done a i, .done b j => Sim a b ∧ i = j
+  | .panic x, .panic y => x = y
+  | .outOfFuel, .outOfFuel => True
+  | _, _ => False
+
+theorem run_sim (o : Opts) (f : Nat) (x y : Mach) (i : Str) (h : Sim x y) :
+    RunSim (run o f x i) (run o f y i) := by
+  induction f generalizing x y i with
+  | zero => simp [run, RunSim]
+  | succ f ih =>
+    have hs := step_sim o x y i h
+    simp only [run]
+    cases hx : step o x i <;> cases hy : step o y i <;> rw [hx, hy] at hs <;> simp only [RSim] at hs
+    · obtain ⟨h1, h2⟩ := hs; subst h2; exact ih _ _ _ h1
+    · obtain ⟨h1, h2⟩ := hs; subst h2; exact ⟨h1, rfl⟩
+    · exact hs
+
+theorem setAtEof_setCC (m : Mach) (a : Char) (b : Bool) :
+    (m.setCurrentChar a).setAtEof b = (m.setAtEof b).setCurrentChar a := by cases m; rfl
+
+/-- **`end()` after the last chunk**: on machines equal up to a dead `current_char` (what
+`C15_chunking` delivers) `XmlTokenizer::end` emits the same tokens — so the whole token stream of a
+chunked parse equals that of the one-piece parse. -/
+theorem C15_finish_sim (o : Opts) (m1 m2 : Mach) (h : Sim m1 m2) :
+    (finish o m1).map (·.out) = (finish o m2).map (·.out) := by
+  rcases h with h | ⟨hd, a, ha⟩
+  · rw [h]
+  · subst ha
+    obtain ⟨hr, hcr, hk⟩ := hd
+    have hcr2 : (m1.setCurrentChar a).charRef = none := by simp [hcr]
+    unfold finish
+    simp only [hcr, hcr2, setAtEof_setCC]
+    have hdead : deadCC (m1.setAtEof true) := ⟨by simp [hr], by simp [hcr], by simpa using hk⟩
+    have hf : fuelFor ((m1.setAtEof true).setCurrentChar a) [] = fuelFor (m1.setAtEof true) [] := by
+      simp [fuelFor]
+    rw [hf]
+    have hrs := run_sim o (fuelFor (m1.setAtEof true) []) (m1.setAtEof true)
+      ((m1.setAtEof true).setCurrentChar a) [] (Or.inr ⟨hdead, a, rfl⟩)
+    cases hx : run o (fuelFor (m1.setAtEof true) []) (m1.setAtEof true) [] <;>
+      cases hy : run o (fuelFor (m1.setAtEof true) []) ((m1.setAtEof true).setCurrentChar a) [] <;>
+      rw [hx, hy] at hrs <;> simp only [RunSim] at hrs
+    · obtain ⟨hsim, _⟩ := hrs
+      rcases hsim with hsim | ⟨_, c, hc⟩
+      · rw [hsim]
+      · rw [hc]
+        simp only [eofLoop_setCC]
+        cases eofLoop o 8 _ <;> rfl
+    · rw [hrs]
+
+/-! ### non-vacuity -/
+
+-- "<a b='x\r" | "\ny'>" : the CRLF split over two chunks becomes one LF
+example : (match feedAll ⟨false⟩ {} ["<a b='x\r".toList, "\ny'>".toList] with
+    | some m => m.out
+    | none => []) =
+    [.tag { kind := .startTag, name := ⟨none, ['a']⟩, attrs := [⟨⟨none, ['b']⟩, "x\ny".toList⟩] }] := by
+  decide
 
 end H5V.Props.C15
